@@ -11,15 +11,29 @@ def worker_init(tier):
 def items(tier):
     ins = ["s", (), (2,), (1,), (2, 2), (1, 2)] + ([(2, 1, 2), (3,)] if tier == "thorough" else [])
     outs = [(), (2,), (1,), (2, 2)] + ([(2, 1, 2), (3,), (2, 3)] if tier == "thorough" else [])
-    return [(i, o) for i in ins for o in outs]
+    out = [(i, o) for i in ins for o in outs]
+    # the forward-mode operators (deriv, make_jvp) and the reverse-mode ones (grad, jacobian, make_vjp, the Hessian-vector
+    # products) must describe ONE Jacobian also for real rule-table functions whose two rule tables are written
+    # independently: contractions given by explicit axis lists / subscripts (pairings in any order, total contractions)
+    from .. import grid
+
+    enga.init()
+    seen = set()
+    for c in grid.real_grid("quick", families=("contract",)):
+        if c.prim in ("tensordot", "einsum", "inner", "kron") and ("[" in c.label or "'" in c.label) and c.key not in seen:
+            seen.add(c.key)
+            out.append(("adjoint", c))
+    return out
 
 
 def item_key(it):
+    if it[0] == "adjoint":
+        return "OPS forward- and reverse-mode operators agree | " + it[1].key
     return "OPS in=%s out=%s" % (it[0], it[1])
 
 
 def check(it, tier):
-    o = checks_a.check_operators(it, tier)
+    o = checks_a.check_adjoint(it[1], tier) if it[0] == "adjoint" else checks_a.check_operators(it, tier)
     o.key = item_key(it)
     return o
 
